@@ -480,10 +480,9 @@ impl PartialEq for JsStr<'_> {
 impl PartialEq<str> for JsStr<'_> {
     #[inline]
     fn eq(&self, other: &str) -> bool {
-        match self.variant() {
-            JsStrVariant::Latin1(v) => v == other.as_bytes(),
-            JsStrVariant::Utf16(v) => other.encode_utf16().zip(v).all(|(a, b)| a == *b),
-        }
+        // Compare code units: `other` is UTF-8, so neither its bytes (Latin1 arm) nor a
+        // length-unchecked zip (UTF-16 arm) can be compared with the buffer directly.
+        self.iter().eq(other.encode_utf16())
     }
 }
 
